@@ -56,7 +56,11 @@ def _lattice_generator(num_cities, family):
             pts = jnp.where(jax.random.bernoulli(kswap), pts[:, ::-1], pts)
             off = jax.random.randint(koff, (2,), 0, size - extent * scale + 1)
             coordinates = (pts + off[None, :]).astype(jnp.float32) / jnp.float32(size)
-            return State(
+            from harness import inject
+            from jumanji.environments.routing.tsp.generator import UniformGenerator
+
+            return inject.state_like(
+                UniformGenerator(num_cities=self.num_cities)(key),
                 coordinates=coordinates,
                 position=jnp.array(-1, jnp.int32),
                 visited_mask=jnp.zeros(self.num_cities, dtype=bool),
